@@ -107,7 +107,10 @@ fn reader_fault_in_a_multi_document_stream_is_an_error() {
 	let json = br#"{"a":1} [2,3] "x" {"b":null}"#.to_vec();
 	let yaml = b"a: 1\n---\n- 2\n- 3\n---\nx\n".to_vec();
 	let msgpack = vec![0x81, 0xa1, 0x61, 0x01, 0x92, 0x02, 0x03, 0xa1, 0x78, 0x81, 0xa1, 0x62, 0xc0];
-	for (from, data) in [(Format::Json, json), (Format::Yaml, yaml), (Format::Msgpack, msgpack)] {
+	// explicit document end markers: a fault between `...` and the next document must not be mistaken for the end
+	let yaml_ends = b"a: 1\n...\n---\nb: 2\n...\n".to_vec();
+	let yaml_end = b"k: v\n...\n\n".to_vec();
+	for (from, data) in [(Format::Json, json), (Format::Yaml, yaml), (Format::Yaml, yaml_ends), (Format::Yaml, yaml_end), (Format::Msgpack, msgpack)] {
 		let mut full = Vec::new();
 		xt::translate_reader(&data[..], Some(from), Format::Json, &mut full).unwrap();
 		let full = String::from_utf8(full).unwrap();
